@@ -30,6 +30,7 @@ ASSUMPTIONS = ["only C/C.utf8/POSIX locales exist here: the setlocale('C') guard
                "end-to-end clock: aioftp.server.time and aioftp.client.datetime are replaced by shims following a chosen "
                "'now' (a canary checks the shim is effective, otherwise the real clock is used with mtimes relative to it)"]
 REQUIRED_MONITORS = ["date_roundtrip", "mlsx_entries", "list_entries", "stat_entries"]
+ANCHOR_FUNCTIONS = ['server.py:Server.build_list_mtime', 'client.py:BaseClient.parse_ls_date', 'client.py:BaseClient.parse_mlsx_line', 'client.py:BaseClient.parse_list_line_unix', 'server.py:Server.build_mlsx_string']
 EXHAUSTIVE = {"quick": False, "thorough": False}
 
 H = 15778476
